@@ -10,7 +10,37 @@ from tsg.build import AnalysisBroken
 JUSTIFIED = [
     ("TasGrid::TasmanianFourierTransform::fast_fourier_transform", "fast_fourier_transform1D(data, maps1d[i])",
      "maps1d partitions the tensor indices into disjoint 1-D lines (each i is pushed into exactly one maps1d[i1d]); iteration i only touches data[maps1d[i][*]]"),
+    # subscripts that go through a lookup table: distinct iterations hit distinct elements only because the table is injective over the iteration space
+    ("TasGrid::GridGlobal::getQuadratureWeights", "weights[tensor_refs[n][i]] +=",
+     "tensor_refs[n] holds the slots (MultiIndexSet::getSlot) of the distinct points of tensor n, filled by recomputeTensorRefs: one slot per tensor point, i -> slot is injective for the fixed n of the enclosing serial loop"),
+    ("TasGrid::MultiIndexManipulations::computeTensorWeights", "val -= weights[map[d][j]]",
+     "val aliases weights[map[d][i]] with i inside the line [lines1d[d][job], lines1d[d][job+1]) of this job; the lines partition 0..num_tensors and map[d] is a permutation (sorted order of the tensors in direction d)"),
 ]
+
+
+def base_of(t):
+    """container expression of an element access"""
+    t = strip(t)
+    while t is not None and (t.get("k") == "ArraySubscriptExpr" or (t.get("k") == "CXXOperatorCallExpr" and t.get("op") == "[]")):
+        ch = [x for x in t.get("c", []) if isinstance(x, dict)]
+        t = strip(ch[0] if t.get("k") == "ArraySubscriptExpr" else ch[-2])
+    return t or {}
+
+
+def indirect_subscript(*exprs):
+    """a subscript whose index is itself read from a table or returned by a call (a[t[i]], a[f(i)]): injectivity over the iterations is a property of the table"""
+    def is_sub(q):
+        return q.get("k") == "ArraySubscriptExpr" or (q.get("k") == "CXXOperatorCallExpr" and q.get("op") == "[]")
+    for e in exprs:
+        if e is None:
+            continue
+        for q in [e] + list(walk(e)):
+            if is_sub(q):
+                ch = [x for x in q.get("c", []) if isinstance(x, dict)]
+                for z in [ch[-1]] + list(walk(ch[-1])):
+                    if is_sub(z) or z.get("k") in ("CallExpr", "CXXMemberCallExpr"):
+                        return True
+    return False
 CANONICAL_SINKS = ("TasGrid::MultiIndexSet::MultiIndexSet", "std::sort", "TasGrid::MultiIndexSet::operator+=", "TasGrid::MultiIndexSet::addSortedIndexes")
 APPENDERS = ("::append", "::appendStrip", "::push_back", "::insert", "::emplace_back", "::operator+=")
 
@@ -21,7 +51,8 @@ def run(chk):
     sdb = DB("serial")
     sdb.load_all()
     chk.rule("C13-D1.sharing", "every write inside an OpenMP parallel region targets thread-private data, or shared data subscripted through the worksharing loop variable "
-                               "(directly or via a private pointer/offset derived from it), or sits inside critical/atomic, or is a reduction variable, or is on the individually justified list")
+                               "(directly or via a private pointer/offset derived from it; a subscript that goes through a lookup table counts only when the table is on the justified list), "
+                               "or sits inside critical/atomic, or is a reduction variable, or is on the individually justified list")
     chk.rule("C13-D2.canonical", "a shared container appended to inside a critical section flows into a canonicalising operation (sorting MultiIndexSet constructor, std::sort, set union) before it is used")
     chk.rule("C13-D3.decision", "no floating-point reduction / atomic accumulation feeds a comparison that selects points (accumulation order may only affect values, to rounding)")
     chk.rule("C13-D4.dual", "functions with separate #ifdef _OPENMP and serial bodies perform the same guarded calls in both configurations; the only extra statements of the OpenMP body merge thread-local containers under critical")
@@ -63,6 +94,14 @@ def run(chk):
                         if packed and ex is None:
                             bitpacked.append((n, t, packed[0]))
                             continue
+                        if indirect_subscript(t, full):
+                            just = [j for j in JUSTIFIED if fn.name.startswith(j[0]) and txt(n).startswith(j[1])]
+                            if just:
+                                counts["justified"] += 1
+                                chk.note("C13-D1.sharing", fn.loc(n), "justified table subscript %s: %s" % (txt(n)[:60], just[0][2]))
+                                continue
+                            bad.append((n, t, "table"))
+                            continue
                         counts["private-alias/by-loopvar"] += 1
                         continue
                     # a call whose *other* arguments select the part of the shared object: only on the justified list
@@ -78,6 +117,12 @@ def run(chk):
                            "a byte-sized element type, or critical/atomic")
                 for n, t, kind in bad:
                     what = "container mutation" if kind == "container" else "write"
+                    if kind == "table":
+                        chk.ob("C13-D1.sharing", fn.key, "write %s" % txt(n)[:70], False, fn.loc(n),
+                               "the element of shared `%s` is selected through a lookup table: two iterations write different elements only if the table never repeats an entry "
+                               "across the iteration space, which is not on the justified list" % txt(strip(base_of(t)))[:40],
+                               "thread-private target, subscript affine in the worksharing loop variable, critical/atomic, or a justified table")
+                        continue
                     chk.ob("C13-D1.sharing", fn.key, "%s %s" % (what, txt(n)[:70]), False, fn.loc(n),
                            "shared `%s` is modified by every thread without critical/atomic and the target does not depend on the worksharing loop variable" % txt(strip(t))[:50],
                            "thread-private target, loop-variable subscript, critical/atomic, reduction")
